@@ -120,8 +120,12 @@ func Minify(inputs []InputFile, cfg *Config) (*Result, error) {
 	}
 
 	perFile, pkgExports := scanInputSymbols(files, cfg)
+	paths := make([]string, len(files))
 	for i := range files {
-		fileCfg := mergeAnalysisConfig(cfg.Analysis, files[i].path, perFile, pkgExports)
+		paths[i] = files[i].path
+	}
+	for i := range files {
+		fileCfg := mergeAnalysisConfig(cfg.Analysis, files[i].path, paths, perFile, pkgExports)
 		files[i].analysis = analysis.Analyze(files[i].exprs, fileCfg)
 	}
 
@@ -212,7 +216,7 @@ func parseFile(input InputFile) (parsedFile, error) {
 	}, nil
 }
 
-func mergeAnalysisConfig(base *analysis.Config, filename string, perFile map[string]fileSymbols, pkgExports map[string][]analysis.ExternalSymbol) *analysis.Config {
+func mergeAnalysisConfig(base *analysis.Config, filename string, paths []string, perFile map[string]fileSymbols, pkgExports map[string][]analysis.ExternalSymbol) *analysis.Config {
 	cfg := &analysis.Config{Filename: filename}
 	if base != nil {
 		cfg.ExtraGlobals = append(cfg.ExtraGlobals, base.ExtraGlobals...)
@@ -229,10 +233,14 @@ func mergeAnalysisConfig(base *analysis.Config, filename string, perFile map[str
 	if symbols, ok := perFile[filename]; ok && len(symbols.packages) > 0 {
 		currentPackages = symbols.packages
 	}
-	for path, symbols := range perFile {
+	// Visit the other files in input order, not in map order: when two files
+	// define the same name the later definition wins in the analyzer's scope,
+	// and which one that is must not change from run to run.
+	for _, path := range paths {
 		if path == filename {
 			continue
 		}
+		symbols := perFile[path]
 		for _, sym := range symbols.globals {
 			if currentPackages[sym.Package] {
 				cfg.ExtraGlobals = append(cfg.ExtraGlobals, sym)
@@ -316,9 +324,15 @@ func scanProgramSymbols(exprs []*lisp.LVal, cfg *Config) ([]analysis.ExternalSym
 		}
 	}
 
+	keys := make([]string, 0, len(defs))
+	for key := range defs {
+		keys = append(keys, key)
+	}
+	sort.Strings(keys)
 	globals := make([]analysis.ExternalSymbol, 0, len(defs))
 	pkgExports := make(map[string][]analysis.ExternalSymbol)
-	for key, sym := range defs {
+	for _, key := range keys {
+		sym := defs[key]
 		globals = append(globals, sym)
 		pkg, name, _ := strings.Cut(key, "/")
 		if exported[pkg][name] {
